@@ -93,9 +93,17 @@ func (w *ConfWatcher) run() {
 
 		select {
 		case w.signal <- struct{}{}:
-			return true
 		case <-w.terminate:
 			return false
+		}
+
+		// events queued before the signal was delivered are covered by it
+		for {
+			select {
+			case <-w.inner.Events:
+			default:
+				return true
+			}
 		}
 	}
 
